@@ -445,6 +445,8 @@ def _seq_child(conn, mod_name, plans):
         faulthandler.dump_traceback_later(300, exit=True)
         from sim import registry
         mod = registry.load(mod_name)
+        if hasattr(mod, 'set_full_global'):
+            mod.set_full_global(True)     # content hashes after every run: what the batch's slow path saw must recur here
         mod.clean_start()
         v = None
         for pl in plans:
